@@ -27,8 +27,8 @@ from . import c14_model as jm
 
 MODULE = "chan/Jakes.tla"
 DEVS = ["ArangeCountDrifts", "ArangeStepRounded", "ReusesBuffer", "PlusTsDropped", "SkipOffByOne", "ShapeRestartsTime", "GenRedrawsPhases",
-        "SimilarSharesPhases", "NormOneOverL"]
-INVS = ["TypeOK", "Count", "Aligned", "OnGrid", "BuffersDistinct", "PhasesFixed", "Independent", "Bound", "BoundTight", "ZeroDoppler", "Moves",
+        "SimilarSharesPhases", "NormOneOverL", "DropsTailRays"]
+INVS = ["TypeOK", "Count", "Aligned", "OnGrid", "BuffersDistinct", "EveryRayCounts", "PhasesFixed", "Independent", "Bound", "BoundTight", "ZeroDoppler", "Moves",
         "UnitPower"]
 PROPS = ["Contiguity", "Isolation", "EarlierBlocksUnchanged"]
 # laws the specification may name in the `req` set of an emitted edge, and where the replay enforces them
@@ -40,6 +40,7 @@ LAWS = {
     "StoredBlockKept": "Driver.check_all: non-generating calls leave get_samples() as it was",
     "Count": "shape comparison", "Contiguity": "values at the emitted indexes", "OnGrid": "1 % of a sample tolerance",
     "PhasesFixed": "values with the phases of the emitted draw", "Bound": "|h| <= sqrt(L)",
+    "EveryRayCounts": "values against the sum over ALL L rays, L from 1 to 64 incl. non-multiples of 16 (L_CHOICES)",
     "ZeroDoppler": "values of the Fd = 0 instance (tolerance floor 1e-9)",
 }
 BIG = 10 ** 7
@@ -531,7 +532,9 @@ def _label(e):
     return graph.key({k: v for k, v in e["ret"].items() if k in ("op", "g", "n", "r", "sh", "warm")})
 
 
-L_CHOICES = [8, 5, 12, 3, 1, 16]
+# ray counts: 1 .. 64, below / at / above an internal pass size of 16 and NOT multiples of it (17, 20, 33, 40, 47)
+L_CHOICES = [8, 20, 5, 47, 12, 3, 33, 1, 16, 17, 40, 64]
+L_BIG = [8, 20, 5, 17, 12, 3, 1, 16]      # with requests of 10^5 samples (memory: L x shape x n temporaries in the code)
 
 
 def explore(ctx, name, r, depth, combos, every=None, extra=()):
@@ -547,13 +550,14 @@ def explore(ctx, name, r, depth, combos, every=None, extra=()):
     if len(roots) != 1:
         raise tlc.TlcError(f"{name}: emitted graph has {len(roots)} roots")
     paths = g.all_paths(roots[0], depth)
+    Ls = L_BIG if any(int(e["ret"].get("n", 0)) >= 10 ** 5 for e in r.emitted) else L_CHOICES
     jobs = []
     for pi, p in enumerate(paths):
         sel = combos if every is None else [combos[(pi * every + k + ctx.seed) % len(combos)] for k in range(every)]
         if extra:
             sel = list(sel) + [extra[(pi + ctx.seed) % len(extra)]]
         for ci, (mode, fdts, Ts) in enumerate(sel):
-            L = L_CHOICES[(pi + ci + ctx.seed) % len(L_CHOICES)]
+            L = Ls[(pi + ci + ctx.seed) % len(Ls)]
             jobs.append((name, p, mode, fdts / Ts, Ts, L, (ctx.seed * 1000003 + pi * 31 + ci) % (2 ** 31)))
     return name, g, jobs
 
@@ -592,7 +596,8 @@ def model_devs(ctx):
     want = {"ArangeCountDrifts": ("Count", {}), "ArangeStepRounded": ("OnGrid", {}),
             "ReusesBuffer": ("EarlierBlocksUnchanged", {}), "PlusTsDropped": ("Contiguity", {}), "SkipOffByOne": ("Contiguity", {}),
             "ShapeRestartsTime": ("Contiguity", {}), "GenRedrawsPhases": ("PhasesFixed", {}),
-            "SimilarSharesPhases": ("Independent", dict(maxgens=2)), "NormOneOverL": ("UnitPower", dict(lattice=True))}
+            "SimilarSharesPhases": ("Independent", dict(maxgens=2)), "NormOneOverL": ("UnitPower", dict(lattice=True)),
+            "DropsTailRays": ("EveryRayCounts", dict(lattice=True, L=20))}
 
     def one(dev):
         prop, kw = want[dev]
@@ -634,7 +639,7 @@ def configs(tier):
                              [("rel", 0.0, 1e-3)], None)
         lat = dict(gens=(1, 3, 6), skips=(1, 2), big=(1,), shapes=((2,),), maxlen=3, lattice=True)
         c["lattice-q1"] = (dict(lat, L=4, fdq=1, warm=(0, 999)), 4, [("lat", 0.25, 1e-3), ("latfunc", 0.25, 1e-9)], None)
-        c["lattice-q2"] = (dict(lat, L=7, fdq=2), 4, [("lat", 0.5, 1e-6)], None)
+        c["lattice-q2"] = (dict(lat, L=20, fdq=2), 4, [("lat", 0.5, 1e-6)], None)
         c["lattice-q0"] = (dict(lat, L=5, fdq=0), 4, [("lat", 0.0, 1e-3), ("latfunc", 0.0, 1.0)], None)
         c["rayleigh"] = (dict(kind="rayleigh", gens=(1, 3), skips=(2,), big=(), shapes=((2, 3), ()), shape0=((), (2,)),
                               maxgens=2, gendef=True, maxlen=3), 4, [("rayleigh", 0.0, 1.0)], None)
@@ -652,9 +657,9 @@ def configs(tier):
         c["zero-doppler"] = (dict(gens=(1, 3, 1000), skips=(2,), big=(1,), shapes=((2,),), warm=(0, 999), maxlen=4), 5,
                              [("rel", 0.0, Ts) for Ts in Ts4], None)
         lat = dict(gens=(1, 3, 6, 1000), skips=(1, 2), big=(1,), shapes=((2,), ()), maxlen=4, lattice=True, warm=(0, 999))
-        c["lattice-q1"] = (dict(lat, L=4, fdq=1), 5, [(m, 0.25, Ts) for Ts in Ts4 for m in ("lat", "latfunc")], 2)
-        c["lattice-q2"] = (dict(lat, L=7, fdq=2), 5, [(m, 0.5, Ts) for Ts in Ts4 for m in ("lat", "latfunc")], 2)
-        c["lattice-q0"] = (dict(lat, L=5, fdq=0), 5, [(m, 0.0, Ts) for Ts in Ts4 for m in ("lat", "latfunc")], 2)
+        c["lattice-q1"] = (dict(lat, L=47, fdq=1), 5, [(m, 0.25, Ts) for Ts in Ts4 for m in ("lat", "latfunc")], 2)
+        c["lattice-q2"] = (dict(lat, L=20, fdq=2), 5, [(m, 0.5, Ts) for Ts in Ts4 for m in ("lat", "latfunc")], 2)
+        c["lattice-q0"] = (dict(lat, L=33, fdq=0), 5, [(m, 0.0, Ts) for Ts in Ts4 for m in ("lat", "latfunc")], 2)
         c["rayleigh"] = (dict(kind="rayleigh", gens=(1, 3), skips=(2,), big=(1,), shapes=((2, 3), ()),
                               shape0=((), (2,)), maxgens=2, gendef=True, maxlen=4), 5, [("rayleigh", 0.0, 1.0)], None)
     return c
